@@ -21,6 +21,7 @@ one canonical form of constructs that maintainers routinely rewrite into each ot
   S7  T i = a; while (c(i)) { body; ++i; } (no continue, i dead afterwards) -> for (T i = a; c(i); ++i) body
   S4  a void function body / a loop body that ends with `if (a && b) { X }` -> `if (!a) return / continue; if (!b) ...; X` (guard-clause form)
   S8  if (a > b) a = b; -> a = min(a, b); if (a < b) a = b; -> a = max(a, b)   (integers)
+  S12 `if (ok) return; throw X;` at the end of a void function -> `if (!ok) throw X;`
   S5  `while (c) body` and `for (; c; ) body` are both exported as For nodes with empty init / increment
 
 Nothing here changes which values are computed, in which order side effects happen, or which exceptions are thrown."""
@@ -650,6 +651,19 @@ def norm_function(fn):
     _tail_loops(body)
     if (fn.get("ret") == "void" or fn.get("kind") in ("ctor", "dtor")) and body.get("k") == "Block":
         body["s"] = _guard_tail(body.get("s", []), "Return")
+        # S12: `if (ok) return; throw X;` at the end of a void function  ->  `if (!ok) throw X;`
+        ss = body["s"]
+        for i in range(len(ss) - 1):
+            s0 = ss[i]
+            if isinstance(s0, dict) and s0.get("k") == "If" and s0.get("e") is None and _bare_exit(s0.get("t"), "Return"):
+                tail = ss[i + 1:]
+                import astu
+                if tail and astu.always_throws({"k": "Block", "s": tail}) and not any(isinstance(x, dict) and x.get("k") == "Decl" for x in tail):
+                    neg = _neg(s0["c"])
+                    if isinstance(neg, dict) and neg.get("k") == "Bin":
+                        neg = norm_expr(neg)
+                    body["s"] = ss[:i] + [{"k": "If", "c": neg, "t": {"k": "Block", "s": tail, "loc": tail[0].get("loc")}, "e": None, "loc": s0.get("loc"), "synth": True}]
+                    break
     fn["body"] = body
     for i in fn.get("inits", []) or []:
         if isinstance(i.get("e"), (dict, list)):
